@@ -136,6 +136,15 @@ theorem model_caps_within_hw :
     ∀ a ∈ Gen.accelerators, (Conflicts.hwCaps a.isU65).maxDma ≤ a.maxOutstandingDma ∧
       (Conflicts.hwCaps a.isU65).maxKern ≤ a.maxOutstandingKernels := by decide
 
+/-- The SHRAM geometry the Spec uses (hand-written bank counts, LUT in the last two banks) is the one the
+    regenerated accelerator table reports: a change of Vela's view of the SHRAM shows up here, while the Spec
+    keeps judging streams against the hardware. -/
+theorem shram_table_agrees :
+    ∀ a ∈ Gen.accelerators, a.shramBanks = Conflicts.hwShramBanks a.name ∧
+      a.shramBankSize = Conflicts.bankBytes ∧
+      a.shramLutAddress = (Conflicts.hwShram a.name).lutBase ∧ a.shramLutSize = (Conflicts.hwShram a.name).lutBytes ∧
+      a.shramSizeBytes = (Conflicts.hwShram a.name).totalBytes := by decide
+
 theorem wait_safety_accelerators {Op : Type} (conf : Op → Op → Bool) (ops : List (Bool × Op)) :
     ∀ a ∈ Gen.accelerators,
       HazardFree (Conflicts.hwCaps a.isU65) conf (emit a.maxOutstandingDma a.maxOutstandingKernels conf ops) :=
